@@ -2,6 +2,7 @@
 import itertools
 import json
 import os
+import re
 import shutil
 import sys
 
@@ -135,11 +136,16 @@ Eval vm_compute in ("%(tag)s"%%string, check_main (main cp %(mp)d%%nat E extra_o
 
 # ------------------------------------------------------------------ runs of the real generation
 
+# replay of the known way to obtain a duplicated unique entry (see search): extra trees whose own string is already a unique
+DUPUNIQ = ("verif_dupuniq", [["x", "a"], ["log_abs", "inv"], ["+", "-", "*"]], [6])
+
+
 def run_list(ctx):
-    """[(runname, basis-or-None, nmax)]"""
-    nmax = 4 if ctx.quick else 5
-    runs = [(b, None, nmax) for b in SHIPPED]
-    runs += [(name, basis, nmax) for name, basis in SUBBASES.items()]
+    """[(runname, basis-or-None, [complexities])]"""
+    ns = list(range(1, (4 if ctx.quick else 5) + 1))
+    runs = [(b, None, ns) for b in SHIPPED]
+    runs += [(name, basis, ns) for name, basis in SUBBASES.items()]
+    runs.append(DUPUNIQ)
     if not ctx.quick:
         rng = esrv.rng(ctx.seed, "C03/random-subbases")
         unary = ["inv", "square", "cube", "sqrt_abs", "exp", "log_abs", "sin", "tenexp", "log10_abs"]
@@ -147,13 +153,13 @@ def run_list(ctx):
         for k in range(6):
             u = sorted(rng.sample(unary, rng.randint(1, 3)))
             b = sorted(rng.sample(binary, rng.randint(1, 3)))
-            runs.append(("verif_rnd%d" % k, [["x", "a"], u, b], 4))
+            runs.append(("verif_rnd%d" % k, [["x", "a"], u, b], [1, 2, 3, 4]))
     return runs
 
 
-def trace_run(ctx, runname, basis, nmax):
+def trace_run(ctx, runname, basis, ns):
     extra = {"ESR_VERIF_BASIS": json.dumps(basis)} if basis is not None else None
-    rc, out, err = esrv.run_py(ctx.scratch, IMPL, ["trace", runname] + [str(n) for n in range(1, nmax + 1)],
+    rc, out, err = esrv.run_py(ctx.scratch, IMPL, ["trace", runname] + [str(n) for n in ns],
                                extra=extra, timeout=3000)
     if rc != 0:
         return None, err[-2000:]
@@ -266,7 +272,7 @@ def correspondence(ctx):
     for (runname, basis, nmax), (recs, err) in traces:
         if recs is None:
             rep.fail("broken-correspondence", "real duplicate_checker.main failed under the recording wrappers for %s" % runname,
-                     "C03:trace-driver:" + runname, input={"run": runname, "basis": basis, "nmax": nmax}, observed=err,
+                     "C03:trace-driver:" + runname, input={"run": runname, "basis": basis, "n": nmax}, observed=err,
                      theorem="oracle-trace replay")
             continue
         for rec in recs:
@@ -288,7 +294,7 @@ def correspondence(ctx):
                              "extra_trees": len(rec["extra_orig"] or []), "unmerged_by_check_results": len(tc)})
             ncalls += len(rec["calls"])
             if r != []:
-                what = (", ".join(COMPONENTS.get(int(x), x) for x in r[r.find("[") + 1:r.find("]")].replace(";", " ").split())
+                what = (", ".join(COMPONENTS.get(int(x), x) for x in re.findall(r"\d+", r[r.find("[") + 1:r.find("]")]))
                         if isinstance(r, str) and r.startswith("(") else str(r))
                 rep.fail("broken-correspondence", "Model/DoSympy.v fed with the recorded oracle answers does not reproduce the real run "
                          "%s n=%d: %s" % (rec["runname"], rec["n"], what), "C03:trace-corr",
@@ -307,7 +313,7 @@ def correspondence(ctx):
                      "C03:trace-negative-control", observed=str(res), theorem="oracle-trace replay")
     rep.rule = ("uniq: every list over 3 symbols up to length 7 through the real get_unique_indexes and every (a,b) with |a|<=4, |b|<=3 "
                 "through get_match_indexes vs Model/Uniq.v (non-trivial: a repeated value); trace: real duplicate_checker.main on the six "
-                "shipped bases and %d sub-bases (cube, no '-', sin, exp/log only, ...) for n=1..%d with recording wrappers; the recorded "
+                "shipped bases and %d sub-bases (cube, no '-', sin, exp/log only, ...) for n=1..%d (+ one n=6 run) with recording wrappers; the recorded "
                 "sympy_simplify answers, shuffle permutation, simplify_inv_subs table and check_results' to_change are fed to "
                 "Model/DoSympy.v under vm_compute and 15 components (call arguments, per-round files, round counts, all_fun, concatenated "
                 "chains, the three files before and after check_results) are compared as id lists (non-trivial: some function has a chain)"
@@ -385,14 +391,38 @@ def extra_validation(rec, rng, lo):
     return st
 
 
+CHUNK = 500
+
+
 def search_one(args):
-    """runs in a worker process: the C03 statement on one library + validation of the recorded steps"""
-    rec, seed = args
+    """runs in a worker process: the C03 statement on rows [lo, hi) of one library (+, for the first chunk, the checks on
+    the unique list and the validation of the recorded steps)"""
+    rec, seed, lo_i, hi_i = args
     sys.path.insert(0, os.path.join(esrv.VERIF, "harness", "lib"))
     import liboracle as lo
     import random
     lib = lo.load_library(rec["dir"], rec["n"])
-    viol, stats = lo.check_c03(lib, seed)
+    nall = len(lib["all"])
+    rows_ok = len(lib["matches"]) == nall and len(lib["subs"]) == nall and len(lib["trees"]) == nall and len(lib["aifeyn"]) == nall
+    first = lo_i == 0
+    if rows_ok:
+        for k in ("all", "matches", "subs", "trees", "aifeyn"):
+            lib[k] = lib[k][lo_i:hi_i]
+    elif not first:
+        return {"run": rec["runname"], "n": rec["n"], "viol": [], "stats": {}, "steps": None, "extra": None, "clash": []}
+    viol, stats = lo.check_c03(lib, "%s/%d" % (seed, lo_i))
+    out = []
+    for v in viol:
+        if v["kind"] in ("unique-duplicate", "unique-param-gap", "row-counts"):
+            if first:
+                out.append(v)
+            continue
+        if "index" in v:
+            v["index"] += lo_i
+        out.append(v)
+    if not first:
+        stats["uniques"] = 0
+        return {"run": rec["runname"], "n": rec["n"], "viol": out, "stats": stats, "steps": None, "extra": None, "clash": []}
     rng = random.Random("%s/%s/%d/steps" % (seed, rec["runname"], rec["n"]))
     steps = step_validation(rec, rng, lo)
     extra = extra_validation(rec, rng, lo)
@@ -401,10 +431,23 @@ def search_one(args):
     clash = []
     if cr and cr.get("to_change"):
         pre = cr["pre"]
+        xo = rec["extra_orig"] or []
+        base = len(pre["all"]) - len(xo)
+        trees = lo.read_lines(os.path.join(rec["dir"], "trees_%d.txt" % rec["n"]))
+        fin = rec["final"]
         for t in cr["to_change"]:
-            if pre["all"][t] in pre["uniq"]:
-                clash.append({"index": t, "function": pre["all"][t], "existing_unique_index": pre["uniq"].index(pre["all"][t])})
-    return {"run": rec["runname"], "n": rec["n"], "viol": viol, "stats": stats, "steps": steps, "extra": extra, "clash": clash}
+            s = pre["all"][t]
+            if s in pre["uniq"]:
+                j = pre["uniq"].index(s)
+                c = {"index": t, "function": s, "tree": trees[t] if t < len(trees) else None,
+                     "existing_unique_index": j, "appended_unique_index": fin["matches"][t],
+                     "final_unique_lines_with_this_string": [i for i, u in enumerate(fin["uniq"]) if u == s],
+                     "match_before_check_results": pre["matches"][t], "unique_before_check_results": pre["uniq"][pre["matches"][t]],
+                     "chain_before_check_results": pre["subs"][t], "uniques_before": len(pre["uniq"]), "uniques_after": len(fin["uniq"])}
+                if t >= base:
+                    c["extra_tree_of"] = {"index": xo[t - base], "function": pre["all"][xo[t - base]]}
+                clash.append(c)
+    return {"run": rec["runname"], "n": rec["n"], "viol": out, "stats": stats, "steps": steps, "extra": extra, "clash": clash}
 
 
 def search(ctx):
@@ -413,14 +456,27 @@ def search(ctx):
     recs = getattr(ctx, "c03_recs", [])
     slim = []
     for rec in recs:
-        slim.append(({k: rec[k] for k in ("runname", "n", "dir", "calls", "final", "extra_orig", "check_results")}, ctx.seed))
+        r2 = {k: rec[k] for k in ("runname", "n", "dir", "calls", "final", "extra_orig", "check_results")}
+        nfun = len(rec["final"]["all"])
+        for lo_i in range(0, max(nfun, 1), CHUNK):
+            slim.append((r2 if lo_i == 0 else {k: r2[k] for k in ("runname", "n", "dir")}, ctx.seed, lo_i, min(nfun, lo_i + CHUNK)))
     tot = {"functions": 0, "checked": 0, "with_chain": 0, "nan": 0, "undecided": 0,
            "steps_certified": 0, "steps_nan_fewer": 0, "steps_undecided": 0, "steps_trivial": 0, "steps_uncertified": 0,
            "extra_equal": 0, "extra_identical": 0, "extra_undecided": 0, "extra_differ": 0, "unmerged": 0}
     unc_samples, ext_samples = [], []
     basis_of = {(rec["runname"], rec["n"]): rec.get("basis") for rec in recs}
-    with cf.ProcessPoolExecutor(max_workers=8) as ex:
-        results = list(ex.map(search_one, slim))
+    slim.sort(key=lambda a: -(a[3] - a[2]) - (10 ** 6 if a[2] == 0 else 0))
+    with cf.ProcessPoolExecutor(max_workers=10) as ex:
+        parts = list(ex.map(search_one, slim))
+    merged = {}
+    for r in parts:
+        m = merged.setdefault((r["run"], r["n"]), {"run": r["run"], "n": r["n"], "viol": [], "stats": {}, "steps": None, "extra": None, "clash": []})
+        m["viol"] += r["viol"]
+        for k, v in r["stats"].items():
+            m["stats"][k] = m["stats"].get(k, 0) + v
+        if r["steps"] is not None:
+            m["steps"], m["extra"], m["clash"] = r["steps"], r["extra"], r["clash"]
+    results = [merged[k] for k in sorted(merged)]
     nrep = 0
     for r in results:
         s = r["stats"]
@@ -440,7 +496,10 @@ def search(ctx):
                  sample=None if not (r["n"] == 4 and r["run"] in ("base_e_maths", "verif_cube")) else {"run": r["run"], "n": r["n"], "stats": s, "recorded_steps": {k: (v if isinstance(v, int) else len(v))
                                                                                       for k, v in r["steps"].items()}})
         basis = basis_of.get((r["run"], r["n"])) or r["run"]
+        explained = set(c["function"] for c in r["clash"])
         for v in r["viol"]:
+            if v["kind"] == "unique-duplicate" and explained and set(v.get("dup", [])) <= explained:
+                continue
             if nrep >= 12:
                 break
             nrep += 1
@@ -450,10 +509,13 @@ def search(ctx):
                 observed=v.get("point") or v, expected="f_i(sigma_i(theta)) == u_{m_i}(theta) at generic points; nan only with "
                 "strictly fewer parameters; distinct gap-free uniques; one row per function")
         for c in r["clash"]:
-            rep.fail("failing-input", "check_results appended the un-merged function %d of %s n=%d as a new unique although the same "
-                     "string is already unique %d" % (c["index"], r["run"], r["n"], c["existing_unique_index"]),
+            rep.fail("failing-input", "check_results appended the un-merged function %d (%s) of %s n=%d as new unique %d although the same "
+                     "string is already unique %d: unique_equations_%d.txt holds it on lines %s" % (
+                         c["index"], c["function"], r["run"], r["n"], c["appended_unique_index"], c["existing_unique_index"], r["n"],
+                         c["final_unique_lines_with_this_string"]),
                      "C03:unmerge:appended-unique-already-present", input=dict(c, basis=basis, n=r["n"], run=r["run"]),
-                     observed=c, expected="unique entries pairwise distinct")
+                     observed={"unique_equations lines (0-based) holding the string": c["final_unique_lines_with_this_string"]},
+                     expected="unique entries pairwise distinct")
     for rec in recs:
         tot["unmerged"] += len((rec.get("check_results") or {}).get("to_change") or [])
     rep.extra["c03_totals"] = tot
